@@ -70,6 +70,8 @@ class HSFZProto(G.Proto):
             return frame(0x02, bytes([self.tester, self.ecu]) + bytes(echo))
         if f == "data":
             payload = bytes([0x62, spec["tag"] >> 8, spec["tag"] & 0xFF]) + bytes((spec["tag"] * 7 + i) & 0xFF for i in range(spec.get("len", 2)))
+            if spec.get("empty"):
+                payload = b""  # a data frame that consists of the address header only (Len == 2)
             spec["_payload"] = payload
             return frame(0x01, bytes([self.ecu, self.tester]) + payload)
         if f == "data_other":
@@ -203,6 +205,10 @@ class C07(Check):
             for _ in range(0 if quiet else rng.choice([0, 0, 0, 1])):
                 fr.append(noise())
             reactions.append(fr)
+        if rng.random() < 0.08:
+            datas_ = [s_ for fr_ in reactions for s_ in fr_ if s_.get("f") == "data"]
+            if datas_:
+                rng.choice(datas_)["empty"] = True  # at most one: payloads identify the frames
         plan["reactions"] = reactions
         ops: list[dict[str, Any]] = []
         for i in range(nreq):
